@@ -106,7 +106,7 @@ def meta(tier):
                 'replayed twice. Part B: the same programs x 4 formats through the real CLI for hash seeds 0..3 (thorough 0..15) x 2 (thorough 3) '
                 'working directories x every permutation of the include directories x {bare, cluttered, optimized (PYTHONOPTIMIZE=2, PYTHONUTF8=1)} environment, and every combination of spellings of the include '
                 'directories (relative, ./, through a detour, the same directory twice under two spellings); '
-                'non-trivial = execution whose schedule or environment differs from the reference execution; '
+                'plus the repository\'s example programs under their own definitions (quick: the small ones) x formats x hash seeds with rotating environment and working directory; non-trivial = execution whose schedule or environment differs from the reference execution; '
                 'states = distinct (program, format, number of choice points); transitions = executions',
         'bounds': {'programs': [p[0] for p in PROGRAMS], 'hash_seeds': 4 if q else 16, 'deviating_choice_points': 1 if q else 2},
         'assumptions': ['sets are created by set(...) calls, set displays or set comprehensions inside bespokeasm (that is what the import '
@@ -222,6 +222,7 @@ def shard(acc, tier, idx, n):
                                   [ref, out])
                 acc.judge(clause='end-to-end', nontrivial_key=(pi, fmt, seed, cwd, perm, envname))
     spellings(acc, idx, n, ctr, q)
+    corpus_end_to_end(acc, idx, n, q)
 
 
 def spellings(acc, idx, n, ctr0, q):
@@ -265,6 +266,35 @@ def spellings(acc, idx, n, ctr0, q):
                                   spec, diff_msg(ref, out, f'{name} [{fmt}] include directories written as {combo}'), [ref, out])
                 acc.judge(clause='end-to-end', nontrivial_key=(pi, fmt, 'spelling', combo))
     return ctr
+
+
+def corpus_end_to_end(acc, idx, n, q):
+    """The repository's example programs under their own definitions through the real CLI: same image and pretty print for every
+    hash seed, in every environment and from another working directory (quick: the 4- and 8-bit machines; thorough: all)."""
+    from mc import corpus
+    progs = corpus.programs(small_only=q)
+    seeds = (1, 2, 3) if q else tuple(range(1, 8))
+    formats = ('listing', 'intel_hex') if q else FORMATS_B
+    ctr = 0
+    for prog in progs:
+        for fmt in formats:
+            ctr += 1
+            if ctr % n != idx:
+                continue
+            ref_case = corpus.case_for(prog, pretty=fmt)
+            ref = world.run_cli(ref_case, env_extra={'PYTHONHASHSEED': '0'}, env_base=BARE)
+            acc.count_eval(1, ref.status)
+            for k, seed in enumerate(seeds):
+                envname = ('bare', 'cluttered', 'optimized')[(k + ctr) % 3]
+                cwd = ('<work>', '/', '<root>')[(k + ctr // 3) % 3]
+                out = world.run_cli(ref_case, env_extra={'PYTHONHASHSEED': str(seed)}, cwd=cwd, env_base=ENVS[envname])
+                acc.count_eval(1, out.status)
+                acc.transition()
+                if not same(ref, out):
+                    spec = {'type': 'e2e', 'seed': seed, 'cwd': cwd, 'env': envname}
+                    msg = diff_msg(ref, out, f'example program {prog[0]} [{fmt}] seed={seed} cwd={cwd} env={envname}')
+                    acc.violation([ref_case, ref_case], spec, msg[:600], [ref, out])
+                acc.judge(clause='end-to-end', nontrivial_key=('corpus', prog[0], fmt, seed))
 
 
 # ---- confirmation / replay ------------------------------------------------------------------------------------------
